@@ -382,6 +382,10 @@ func (m *mtr) hoist(e ast.Expr, pre *string, guarded bool) ast.Expr {
 			m.fail(e, "index %s[%s] is not statically within the length the slice was read with", xid.Name, kv.String())
 		}
 		return e
+	case *ast.SliceExpr:
+		if m.psi {
+			return m.hoistSlice(e)
+		}
 	case *ast.CompositeLit:
 		c := *e
 		c.Elts = make([]ast.Expr, len(e.Elts))
@@ -1154,6 +1158,12 @@ func (m *mtr) stmts(list []ast.Stmt, out vset, k func() string) string {
 			return m.bindCall(as, m.propagates(s.Body.List, s)) + rest()
 		}
 		if s.Init != nil {
+			if as, ok := s.Init.(*ast.AssignStmt); ok && m.psi && as.Tok == token.DEFINE {
+				// `if x := e; c { ... }` is `x := e; if c { ... }` (x stays declared: a later redeclaration is refused)
+				plain := *s
+				plain.Init = nil
+				return m.stmts(append([]ast.Stmt{as, &plain}, list[1:]...), out, k)
+			}
 			m.fail(s, "if with init that is not an error check")
 		}
 		pre := ""
